@@ -61,8 +61,17 @@ type vReplica struct {
 // vNewReplica opens an OrbitDB on the shared node with its own datastore and
 // secret store. from != nil: a second device of the same account.
 func vNewReplica(t testing.TB, name string, from *vReplica) *vReplica {
+	return vNewReplicaOpts(t, name, from, nil)
+}
+
+// vNewReplicaOpts: the same with secret store options (small key / reference windows)
+func vNewReplicaOpts(t testing.TB, name string, from *vReplica, ssOpts *secretstore.NewSecretStoreOptions) *vReplica {
 	ds := dssync.MutexWrap(datastore.NewMapDatastore())
-	ss, err := secretstore.NewSecretStore(ds, nil)
+	if ssOpts != nil {
+		// NewSecretStore fills the defaults (among them the keystore) into the options it is given: never share them
+		ssOpts = &secretstore.NewSecretStoreOptions{PreComputedKeysCount: ssOpts.PreComputedKeysCount, PrecomputeOutOfStoreGroupRefsCount: ssOpts.PrecomputeOutOfStoreGroupRefsCount}
+	}
+	ss, err := secretstore.NewSecretStore(ds, ssOpts)
 	if err != nil {
 		t.Fatalf("harness: secret store: %v", err)
 	}
